@@ -148,8 +148,26 @@ def check_value(type_name, v):
         if not has_mod and isinstance(tx, str) and ends.get('start') and ends.get('end'):
             if t == 'daterange':
                 # week / month / year TIMEXes do not pin the endpoints ('later this week' is a sub-range of
-                # 2019-W22 by design), so only explicit (start,end,duration) TIMEXes count as fully definite
+                # 2019-W22 by design), so only explicit (start,end,duration) TIMEXes must EQUAL the value; a definite
+                # week / month / year TIMEX must still name an existing period that CONTAINS the value
                 exp = None
+                period = None
+                m = RE_TX_MONTH.match(tx)
+                if m and 1 <= int(m.group(2)) <= 12 and 1 <= int(m.group(1)) <= 9998:
+                    y, mo = int(m.group(1)), int(m.group(2))
+                    period = (date(y, mo, 1), date(y + (mo == 12), mo % 12 + 1, 1))
+                m = RE_TX_YEAR.match(tx)
+                if m and 1 <= int(m.group(1)) <= 9998:
+                    period = (date(int(m.group(1)), 1, 1), date(int(m.group(1)) + 1, 1, 1))
+                m = RE_TX_WEEK.match(tx)
+                if m and 1 <= int(m.group(1)) <= 9998:
+                    try:
+                        mon = date.fromisocalendar(int(m.group(1)), int(m.group(2)), 1)
+                        period = (mon, mon + timedelta(days=7))
+                    except ValueError:
+                        bad('timex-names-nonexistent-week')
+                if period is not None and not (period[0] <= ends['start'] and ends['end'] <= period[1]):
+                    bad('value-outside-definite-timex-period', period=[str(period[0]), str(period[1])])
                 m = RE_TX_RANGE.match(tx)
                 if m:
                     s, e = parse_date(m.group(1)), parse_date(m.group(2))
